@@ -87,6 +87,7 @@ THEOREMS = [
     "Verif.C11.rational_spectrum_recovery_unique",
     "Verif.C11.psdOr_fixed_diode_shapes",
     "Verif.C11.fit_recovery_in_conditioning_box",
+    "Verif.C11.abs_of_solution_keeps_spectrum",
 ]
 RULE = (
     "corpus (8 representative + the open finding F-C11-1) + exhaustive option matrix (hydro x axial x distance{None, at the "
@@ -2170,6 +2171,10 @@ def cases(tier, rng):
             yield {"stream": "malformed", "op": "bounds", "kind": "fixed", "fixed": fixed, "rate": rate}
     yield from calibval_scope()
     yield from lloss_scope(rng, quick)
+    # ---- signs of the fitted parameters (np.abs of the optimiser's solution): the spectrum at every sign pattern
+    for hydro, sfc, sfd, sal in itertools.product((False, True), (1.0, -1.0), (1.0, -1.0), (1.0, -1.0)):
+        o = base_opts(d=1.1, visc=0.00095, temp=24.0, hydro=hydro)
+        yield {"stream": "scope-psd-signs", "op": "psd", "o": o, "fixed": None, "f": 2345.6, "fc": sfc * 1400.0, "D": 0.04, "pars": [sfd * 11000.0, sal * 0.35]}
     # ---- argument validation of fit_power_spectrum: exhaustive small scope (deterministic)
     for npts, loss, bias, anl in itertools.product((3, 4, 5, 12), ("gaussian", "lorentzian", "huber"), (False, True), (True, False)):
         yield {"stream": "scope-fit-validation", "op": "fitval", "npts": npts, "loss": loss, "bias": bias, "anl": anl}
